@@ -1,3 +1,3 @@
 From Coq Require Import ExtrOcamlBasic.
 From OBB Require Import Model.TrxIf.
-Extraction "model.ml" w_trxif_rx w_trxif_rx_branch w_trxif_tx w_trxif_rsp w_trxif_rsp_branch w_trxif_rsp_pre w_trxif_cmd.
+Extraction "model.ml" w_trxif_rx w_trxif_rx_branch w_trxif_tx w_trxif_rsp w_trxif_rsp_branch w_trxif_cmd.
